@@ -117,6 +117,10 @@ def obligations(tier, seed):
             for chunk in (1, 1024):
                 obs.append(_obl(cfg, (1,), chunk, 200, prefix=prefix))
                 obs.append(_obl(cfg, (1, 1), chunk, 200, prefix=prefix))
+        # a continuation line of an open rfc record that starts with the comment prefix, cut so that a read leaves a residual '#'
+        for prefix, chunk in (('"\n#aa', 3), ('x\n"\n#b', 4), ('"\n#aa', 2)):
+            obs.append(_obl('rfc+comment', (1,), chunk, 200, prefix=prefix))
+            obs.append(_obl('rfc+comment', (1, 1), chunk, 200, prefix=prefix))
         # byte-level partitions of multi-byte samples through the real decoding layer
         for smp, pol, chunk in (('e-acute', 'quoted', 1), ('euro-crlf', 'quoted_rfc', 2), ('bom', 'quoted', 1024), ('emoji', 'simple', 3)):
             obs.append(_bytes_obl(smp, 'utf-8', pol, chunk, 300, header=(smp == 'bom'), comment=('#' if smp == 'emoji' else None)))
@@ -128,8 +132,8 @@ def obligations(tier, seed):
                     obs.append(_bytes_obl(smp, 'utf-8', pol, chunk, 900, header=(smp == 'bom'), comment=('#' if smp == 'emoji' else None)))
             obs.append(_bytes_obl(smp, 'latin-1', 'quoted', 1, 900))
         for cfg, prefix in (('quoted-space', '#\n#\n'), ('rfc+comment', '#\n#x\n'), ('simple+comment', '#\n\n#\n'), ('rfc', '"a\n'), ('quoted+hdr+bom', '\ufeffh\n\n'), ('monocolumn+comment2', '//\n/\n'),
-                            ('rfc+comment', '"\n#\n'), ('quoted', 'a,b\r\n'), ('rfc+hdr', 'h;"\r\n";2\r')):
-            for chunk in (1, 2, 3, 1024):
+                            ('rfc+comment', '"\n#\n'), ('rfc+comment', '"\n#aa'), ('rfc+comment', 'x\n"\n#b'), ('quoted', 'a,b\r\n'), ('rfc+hdr', 'h;"\r\n";2\r')):
+            for chunk in (1, 2, 3, 4, 1024):
                 for lens in ((1,), (2,), (1, 1), (2, 1), (1, 2), (3,)):
                     obs.append(_obl(cfg, lens, chunk, 1200, prefix=prefix))
         for cfg in names:
